@@ -338,6 +338,9 @@ func (c *vHC) gen(r vh.R, op OperationType) vCallSpec {
 		if op == SolicitOp && r.IntN(6) == 0 {
 			z = 1<<32 - 1 - uint64(r.IntN(3)) // a huge declared length: FULL
 		}
+		if op != SolicitOp && r.IntN(8) == 0 {
+			z |= uint64(1+r.IntN(0xFFFFFFFE)) << 32 // a length outside N_L whose low half is (often) the length of an existing entry: no such key
+		}
 		w[7], w[8] = o, z
 		sp.req = []vRange{{o, 32}}
 		sp.twoRegs = op == QueryOp
@@ -596,6 +599,15 @@ func vRunHostSequence(h *vh.H, stratum string, ci int, r vh.R, mon vMonitors) {
 				} else if len(o.memChanged) > 0 || !xSame {
 					viol("service naming: the call answered "+vErrCodes[want]+" but wrote memory or changed the context", fmt.Sprintf("ω7 = %#x", s7))
 				}
+			}
+		}
+
+		// the same for the length half of a lookup key (h, z): z >= 2^32 is the length of no entry
+		if mon.frame && kind != "panic" && kind != "oog" && (op == QueryOp || op == ForgetOp) && o.regs0[8] >= 1<<32 {
+			h.Inc("calls_with_a_lookup_length_outside_the_32_bit_range")
+			want := map[OperationType]uint64{QueryOp: NONE, ForgetOp: HUH}[op]
+			if o.regs1[7] != want || !xSame || (op == QueryOp && o.regs1[8] != 0) {
+				viol("lookup key: a length >= 2^32 was taken for the length of an existing entry (the call must answer "+vErrCodes[want]+")", fmt.Sprintf("z = %#x", o.regs0[8]))
 			}
 		}
 
